@@ -278,6 +278,47 @@ func Run(c *ev.Ctx) {
 		})
 	}
 	runACL("policy", 3)
+	// a round whose upserts do not fit one raft batch (the replicator cuts them at about 256 KiB): every object still
+	// has to arrive
+	for _, n := range []int{3, 7, 12} {
+		w := world.New()
+		apply := func(t structs.MessageType, req interface{}) error {
+			r := w.ApplyReq("replication", t, req)
+			if strings.HasPrefix(r, "err:") || strings.HasPrefix(r, "PANIC") {
+				return fmt.Errorf("%s", r)
+			}
+			return nil
+		}
+		remote := &consul.VerifRemoteACL{Index: 20}
+		want := map[string]string{}
+		for k := 0; k < n; k++ {
+			p := &structs.ACLPolicy{ID: fmt.Sprintf("a0a0a0a0-0000-0000-0000-0000000001%02d", k), Name: fmt.Sprintf("big-%02d", k),
+				Rules: fmt.Sprintf("key_prefix \"big%d\" { policy = \"read\" }\n# %s", k, strings.Repeat("x", 100*1024))}
+			p.ModifyIndex, p.CreateIndex = 15, 12
+			p.SetHash(true)
+			remote.Policies = append(remote.Policies, p)
+			want[p.ID] = renderPolicy(p)
+		}
+		_, err := consul.VerifReplicateACLRound("policy", w.FSM, apply, remote, 0)
+		atomic.AddInt64(&evals, 1)
+		atomic.AddInt64(&nontrivial, 1)
+		replay := map[string]any{"kind": "policy", "large_policies": n}
+		if err != nil {
+			c.Violate("C19:replication-round-fails:policy:large-round", "a replication round over "+fmt.Sprint(n)+" large policies failed: "+err.Error(), replay)
+			continue
+		}
+		got := localSet(w, "policy")
+		missing := 0
+		for id, v := range want {
+			if got[id] != v {
+				missing++
+			}
+		}
+		note(fmt.Sprintf("policy:large-round:%d:missing=%d", n, missing))
+		if missing > 0 || len(got) != len(want) {
+			c.Violate("C19:secondary-differs-after-round:policy:large-round", fmt.Sprintf("after one round over %d policies of 100 KiB each (several raft batches) %d of them are missing or differ in the secondary (it holds %d)", n, missing, len(got)), replay)
+		}
+	}
 	n := 3
 	if quick {
 		n = 2
